@@ -303,7 +303,7 @@ func c13EmitDet(e *emitter, s c13Sched, ans string) {
 }
 
 func genC13(e *emitter, tier string, seed uint64) {
-	nSched, nRace, procs := 600, 32, 6
+	nSched, nRace, procs := 400, 24, 6
 	switch tier {
 	case "thorough":
 		nSched, nRace = 60000, 1500
